@@ -239,7 +239,7 @@ pub fn expected_probes(prop: &str) -> &'static [&'static str] {
         "C05" => &["twin-accepted", "misdelivery-same-bound-context(no-demand)"],
         "C06" => &["followup-equal", "rejected-delivery-history-checked", "stopped-at-identity-point", "batch-member-histories-checked"],
         "C07" => &["batch-rng-used", "scenario:empty-batch:all-valid", "scenario:all-honest:all-valid", "scenario:duplicate-delivery:all-valid", "scenario:plus-minus-d:a:some-invalid", "scenario:plus-minus-d:b:some-invalid", "scenario:zero-sum-triple:some-invalid", "scenario:affine-weight-cancelling-triple:some-invalid", "scenario:quadratic-weight-cancelling-quadruple:some-invalid", "scenario:misdelivered-member:some-invalid", "scenario:one-bad-witness:some-invalid", "scenario:one-tampered:some-invalid"],
-        "C08" => &["garbage-rejected-at-decoding", "garbage-decoded", "stream-read-fault-fired", "stream-write-fault-fired"],
+        "C08" => &["garbage-rejected-at-decoding", "garbage-decoded", "stream-read-fault-fired", "stream-write-fault-fired", "guard-off-build-exercised"],
         "C09" => &["keying-ok", "independence-checked", "attribution-total-and-injective", "opened-against-refprover", "statement-fixed-component-equal(allowed)", "large-circuit-sampled-attribution", "large-circuit-opened-against-refprover"],
         "C10" => &["agree-accept", "agree-reject", "degenerate-identity-cross-term"],
         "C11" => &["bad-point:no-point-for-coordinate", "bad-point:both-flag-bits", "bad-point:small-order-point", "bad-point:P+T", "bad-point:cancelling-pairs"],
